@@ -17,6 +17,8 @@ NotNull(x, ss) == If(Un("not", Call("isnull", <<x>>)), ss, <<>>)
 Prelude == << Func("FK", <<"P">>, <<Return(V("P"))>>),
               Func("FN", <<>>, <<Let("L", OCtor(I(50))), Let("L2", V("L")), Return(V("L2"))>>),
               Func("FD", <<"P">>, <<Let("Q", V("P")), Return(I(1))>>),
+              \* a function that fails while a parameter and a local hold objects
+              Func("FE", <<"P">>, <<Let("L", OCtor(I(60))), Let("Q", V("P")), RaiseS("E1")>>),
               Let("A", OCtor(I(1))), Let("B", OCtor(I(2))), Let("T", Call("tab", <<I(1), A>>)), Let("U", Call("tup", <<I(1), Bv>>)) >>
 
 Pool == <<
@@ -33,6 +35,8 @@ Pool == <<
   For("I", I(1), I(2), NoExpr, "auto", <<Let("W", OCtor(V("I")))>>),
   NotNull(Tt, <<Forall("E", Tt, "auto", <<NotNull(V("E"), <<PrintS(<<Mem(V("E"), "id", <<>>)>>)>>)>>)>>),
   Let("A", OCtor(I(666))),
+  Begin(<<Let("X", UCall("FE", <<A>>))>>, <<When("E1", <<Nop>>)>>), Let("X", UCall("FE", <<Bv>>)),
+  Begin(<<Let("X", UCall("FE", <<OCtor(I(61))>>))>>, <<When("OTHERS", <<Let("X", UCall("FD", <<A>>))>>)>>),
   NotNull(A, <<NotNull(Bv, <<PrintS(<<Mem(A, "other", <<Bv>>), Mem(A, "echo", <<I(4)>>), Mem(Bv, "echo", <<Str("s")>>), Mem(A, "sum", <<I(2), D(3)>>)>>)>>)>>)
 >>
 
@@ -49,13 +53,25 @@ Foreign == <<
   "A = vobj(1); B = utf8(\"x\");\nfor I in 1 to 3 loop print A.self().tag(); if I == 2 then A = B; end if; end loop;\nprint \"end\";",
   "T = tab(2, vobj(1));\nforall E in T loop print E.tag(); E = utf8(\"x\"); print E.tag(); end loop;\nprint \"end\";"
 >>
+\* very many references to one object (more than a 16-bit counter holds): it stays alive until the last one is gone
+Many == << [t |-> "A = vobj(1);", ev |-> <<"create">>],
+           [t |-> "T = tab(70000, A); T.delete(0); B = T.at(5); U = tup(1, A);", ev |-> <<>>],
+           [t |-> "print A.tag() B.tag() T.at(69000).tag();", ev |-> <<"method", "method", "method">>],
+           [t |-> "T = null; B = null;", ev |-> <<>>],
+           [t |-> "print A.tag() (U@2).tag();", ev |-> <<"method", "method">>],
+           [t |-> "U = null; A = null;", ev |-> <<"destroy">>] >>
 VARIABLE p
-Init == p \in {[kind |-> "seq", h |-> h] : h \in UNION {Seqs(n) : n \in 0..H}}
+Init == p \in {[kind |-> "seq", h |-> h] : h \in UNION {Seqs(n) : n \in 0..H}} \cup {[kind |-> "many", h |-> <<>>]}
               \cup {[kind |-> "foreign", h |-> <<j>>] : j \in DOMAIN Foreign}
               \cup {[kind |-> k, h |-> h] : k \in {"clone1", "clone2", "purge"}, h \in UNION {Seqs(n) : n \in 0..1}}
 Next == UNCHANGED p
 Scenario(q) ==
-  IF q.kind = "foreign" THEN
+  IF q.kind = "many" THEN
+    [prop |-> "C17", key |-> "many",
+     steps |-> << [op |-> "new", ctx |-> 0, trusted |-> TRUE], [op |-> "exec", ctx |-> 0, free |-> TRUE, text |-> "import vobj;"] >>
+               \o [j \in DOMAIN Many |-> [op |-> "exec", ctx |-> 0, free |-> TRUE, text |-> Many[j].t, expect_ev |-> Many[j].ev]]
+               \o << [op |-> "free", ctx |-> 0] >>]
+  ELSE IF q.kind = "foreign" THEN
     [prop |-> "C17", key |-> "foreign",
      steps |-> << [op |-> "new", ctx |-> 0, trusted |-> TRUE], [op |-> "exec", ctx |-> 0, free |-> TRUE, text |-> "import vobj; import utf8;"],
                   [op |-> "exec", ctx |-> 0, free |-> TRUE, must_fail |-> TRUE, text |-> Foreign[q.h[1]]],
